@@ -202,7 +202,7 @@ class UTPM(Ring, RawAlgorithmsMixIn):
         if not isinstance(shp, tuple): shp = (shp,)
         if not isinstance(x_shp, tuple): x_shp = (x_shp,)
 
-        y = UTPM(numpy.zeros((D,P) + x_shp + shp))
+        y = UTPM(numpy.zeros((D,P) + x_shp + shp, dtype=xr[0].data.dtype))
 
         yr = UTPM( y.data.reshape((D,P) + (numpy.prod(x_shp, dtype=int),) + shp))
 
@@ -3153,7 +3153,7 @@ class UTPM(Ring, RawAlgorithmsMixIn):
             # hackish way to check that the input length of v makes sense
             raise ValueError('size of v does not match any possible symmetric matrix')
         N = (int(tmp) - 1)//2
-        A = cls(numpy.zeros((D,P,N,N)))
+        A = cls(numpy.zeros((D,P,N,N), dtype=v.data.dtype))
 
         count = 0
         for row in range(N):
@@ -3238,7 +3238,11 @@ class UTPM(Ring, RawAlgorithmsMixIn):
         colsums = numpy.array([ numpy.sum(cols[:c]) for c in range(0,Cb+1)],dtype=int)
 
         # create new matrix where the blocks will be copied into
-        tc = numpy.zeros((D, P, rowsums[-1],colsums[-1]))
+        dtype = float
+        for r in range(Rb):
+            for c in range(Cb):
+                dtype = numpy.promote_types(dtype, in_X[r,c].data.dtype)
+        tc = numpy.zeros((D, P, rowsums[-1],colsums[-1]), dtype=dtype)
         for r in range(Rb):
             for c in range(Cb):
                 # a block with fewer coefficients is a polynomial of lower degree: its higher
